@@ -11,8 +11,8 @@
    same invocation) and bookkeeping AtTop, with the invariants CursorInBounds and TopBound
    (at most n+1 tops per invocation) evaluated at every step.  n is the length of the CALLER's
    input (what was passed to parser.ParseString), so a cursor beyond it is a position outside the
-   input.  `entered` counts, as in ParseCursor, how often one loop is started at one index during
-   one parse (ReparseBound).                                                                     *)
+   input.  `entered` counts how often one loop is started at one index during one parse (exits are
+   not logged, so zero-width invocations are counted too, hence the larger TraceReparseLimit).                                                                    *)
 EXTENDS ParseCursor, Json
 
 CONSTANT TraceReparseLimit   \* ReparseBound for real parses: ordered alternatives start attributesParser /
